@@ -13,7 +13,7 @@
 //	    xml.Marshal(&internal.Prop{Raw: {raw}}) (what stands inside the prop element).
 //	(inter <bytes> (<tok>...) <n> lazy|upfront (a <i>|d ...)) (obs <status> (k <otok>)|eof|panic|(dec <res>) ...)
 //	    n readers of ONE captured value advanced by a schedule, with Decode calls in between.
-//	(seq var|prop|propreuse|resp ((<bytes> (<tok>...)) ...)) (obs (c <status> <raw> <read> <dec> <read2> <mar> <mar-in>) ...)
+//	(seq var|fresh|prop|propreuse|resp ((<bytes> (<tok>...)) ...)) (obs (c <status> <raw> <read> <dec> <read2> <mar> <mar-in>) ...)
 //	    documents captured one after the other into ONE variable, a by-value copy kept
 //	    after each capture, every copy observed at the end.
 //	(bad <bytes> (<tok>...)) (obs <status>)
@@ -459,6 +459,8 @@ const wrapPrefix = "Wq9"
 // kept copy is observed like the value of a doc case.
 //
 //	via var:        var raw RawXMLValue; xml.Unmarshal(doc, &raw); kept = append(kept, raw)
+//	via fresh:      a new variable for every document (histories across values: the documents of one
+//	                case carry related names; nothing of an earlier capture may show in a later value)
 //	via prop:       one internal.Prop; <prop>doc</prop> decoded into it each time (Raw grows); copy of the last element
 //	via propreuse:  the same with p.Raw = p.Raw[:0] before each decoding; copy of p.Raw[0]
 //	via resp:       one internal.Response with resp.PropStats = resp.PropStats[:0] before each decoding of
@@ -487,6 +489,11 @@ func seqLine(via string, docs [][]byte) string {
 		case "var":
 			st = status(func() error { return xml.Unmarshal(d, &raw) })
 			v = raw
+		case "fresh":
+			// a history across values: every document goes into a variable of its own
+			var f RawXMLValue
+			st = status(func() error { return xml.Unmarshal(d, &f) })
+			v = f
 		case "prop", "propreuse":
 			if via == "propreuse" {
 				prop.Raw = prop.Raw[:0]
